@@ -6,7 +6,7 @@ spec = {'signals': [value, ...]         value: float -> python-float source; lis
         'nodes':   [(kind, param, [in handles], [out handles]), ...]   handle = (signal index, chain); chain = tuple of index-key strings (nested slicing)
         'nest':    nested list of node indices in order, e.g. [0, [1, [2]], 3, []]; every sub-list is a nested Network
         'build':   {'print_timing': False|True|number, 'container': 'args'|'list'|'tuple'|'append'|'call'|'copy', 'ret': 'tuple'|'list'|'single',
-                    'io': 'list'|'tuple'|'single', 'dict': bool}}
+                    'io': 'list'|'tuple'|'single', 'dict': bool, 'share': bool (one SignalSlice object per distinct slice), 'explicit': bool (explicit signatures)}}
 rounds = [{'values': {signal index: value}, 'seeds': [(handle, value, 'set'|'add'), ...], 'twice': bool}, ...]
 Preconditions of the property, asserted by check_spec: every entry has at most one producer; no node reads an entry produced by a later node.
 """
@@ -101,6 +101,24 @@ class UMod(pym.Module):
     def _sensitivity(self, *dys):
         self.nsens += 1
         return self._pack(VJP[self.kind](self.p, [s.state for s in self.sig_in], dys))
+
+
+class UMod1(UMod):
+    """one input, one output, written with explicit signatures as users do"""
+    def _response(self, x):
+        return UMod._response(self, x)
+
+    def _sensitivity(self, dy):
+        return UMod._sensitivity(self, dy)
+
+
+class UMod2(UMod):
+    """two inputs, one output, explicit signatures"""
+    def _response(self, a, b):
+        return UMod._response(self, a, b)
+
+    def _sensitivity(self, dy):
+        return UMod._sensitivity(self, dy)
 
 
 # ---- the independent evaluator ---------------------------------------------------------------------------------------------------------------
@@ -241,8 +259,17 @@ def build(spec):
     sigs = [pym.Signal(f'g{i}', sig_value(v)) for i, v in enumerate(spec['signals'])]
     mods = {}
 
+    shared = {}
+
+    def get(hd):
+        if not (b.get('share') and hd[1]):
+            return handle(sigs, hd)
+        if hd not in shared:   # one SignalSlice object serves every module that uses this slice
+            shared[hd] = handle(sigs, hd)
+        return shared[hd]
+
     def pack(hs):
-        hs = [handle(sigs, h) for h in hs]
+        hs = [get((x[0], tuple(x[1]))) for x in hs]
         if b['io'] == 'single' and len(hs) == 1:
             return hs[0]
         return tuple(hs) if b['io'] == 'tuple' else hs
@@ -256,7 +283,10 @@ def build(spec):
             if b['dict']:
                 return dict(kw, type=LIB[kind])
             return getattr(pym, LIB[kind])(**kw)
-        return UMod(pack(ins), pack(outs), kind, p, b['ret'])
+        cls = UMod
+        if b.get('explicit') and len(outs) == 1 and len(ins) in (1, 2):
+            cls = (UMod1, UMod2)[len(ins) - 1]
+        return cls(pack(ins), pack(outs), kind, p, b['ret'])
 
     def network(items, top):
         subs = [network(e, False) if isinstance(e, list) else leaf(e) for e in items]
@@ -318,6 +348,7 @@ def run_case(spec, rounds):
         for n, m in mods.items():
             if isinstance(m, UMod) and m.nresp - counts[n][0] != nr:
                 return dict(round=rn, what='response() must run every module exactly once, in order', node=n, observed=m.nresp - counts[n][0], expected=nr)
+        given = []
         for h, v, mode in rd['seeds']:
             t = handle(sigs, h)
             v = float(v) if np.ndim(v) == 0 else np.array(v, dtype=float)
@@ -325,8 +356,15 @@ def run_case(spec, rounds):
                 t.sensitivity = v
             else:
                 t.add_sensitivity(v)
+                given.append((h, v, np.array(v, dtype=float)))
         with contextlib.redirect_stdout(quiet):
             net.sensitivity()
+        for h, v, v0 in given:
+            if not np.array_equal(v, v0) or (isinstance(v, np.ndarray) and isinstance(sigs[h[0]].sensitivity, np.ndarray) and np.shares_memory(v, sigs[h[0]].sensitivity)):
+                return dict(round=rn, what='a seed handed over with add_sensitivity was modified or aliased by the backward sweep', signal=h[0], observed=tolist(v), expected=tolist(v0))
+        for s, sig in enumerate(sigs):
+            if not close(sig.state, ref[s].real, 1e-13):
+                return dict(round=rn, what='sensitivity() changed a signal state', signal=s, observed=tolist(sig.state), expected=tolist(ref[s].real))
         has, live = liveness(spec, S)
         src = [s for s in range(len(sigs)) if not produced[s]]
         for s in src + [s for s in range(len(sigs)) if produced[s]]:
